@@ -123,6 +123,13 @@ func VH_C12(p []int) {
 	tn, ta := List(), List()
 	verifAssert(native.Transfer(tn) == alias.Transfer(vhAliasStack(ta)), "Transfer-verdict")
 	verifAssert(tn.Len() == ta.Len(), "Transfer-len")
+	// a stack cannot be transferred onto itself, however it is addressed
+	self := And().Push("s1", "s2")
+	verifAssert(!self.Transfer(self), "self-transfer-native")
+	a := vhAliasStack(self)
+	verifAssert(!self.Transfer(a), "self-transfer-alias")
+	verifAssert(!self.Transfer(&a), "self-transfer-pointer-to-alias")
+	verifAssert(self.Len() == 2, "self-transfer-leaves-content")
 	native.Defrag()
 	alias.Defrag()
 	verifAssert(alias.Len() == native.Len(), "Defrag-len")
